@@ -53,7 +53,7 @@ Qed.
 
 (* ------------------------------------------------------------------ a safe opening yields a cache that only knows the table's layout *)
 Section OpenInv.
-  Variable conv : atype -> pyval -> option pyval.
+  Variable conv : catype -> pyval -> option pyval.
   Variable ts : ischema.
 
   Lemma act_cache_ok arg a : forall c, safe_action a = true -> cache_ok ts c -> cache_ok ts (act_cache (Some ts) arg a c).
